@@ -608,6 +608,27 @@ int api_op(const char *name, int lineno)
         return 1;
     }
     if (!strcmp(name, "failnth")) { fail_countdown = IA[0]; return 1; }
+    if (!strcmp(name, "reinit")) { /* n : srtp_shutdown; srtp_init with the n-th allocation failing; srtp_shutdown; normal bring-up again.
+                                       prints: status of the failing init, of the shutdown after it, library blocks still live after that
+                                       shutdown, status of the final bring-up.  Only with no session alive. */
+        for (int i = 0; i < MAXSES; i++)
+            if (ses[i]) { out_z(-2); return 1; }
+        void api_init(void);
+        srtp_shutdown();
+        long live0 = live;
+        fail_countdown = IA[0];
+        srtp_err_status_t st1 = srtp_init();
+        fail_countdown = 0;
+        srtp_err_status_t st2 = srtp_shutdown();
+        long leaked = live - live0;
+        tracking = 0;                       /* the blocks of the final bring-up are the library's own for the rest of the run */
+        srtp_err_status_t st3 = srtp_init();
+        if (st3 == srtp_err_status_ok) { srtp_shutdown(); api_init(); }
+        tracking = 1;
+        out_z(st1); out_z(st2); out_z(leaked); out_z(st3);
+        if (st3 != srtp_err_status_ok) { fflush(stdout); exit(0); }      /* nothing further can run */
+        return 1;
+    }
     if (!strcmp(name, "heap")) { /* live blocks, attempts and frees since last call, dirty frees */
         static long last_att = 0, last_free = 0;
         fail_countdown = 0;
